@@ -76,6 +76,19 @@ def run(ctx):
                                      {"op": "execute", "p": "x1", "ctx": "payload:h1", "how": "val:x", "wait": False, "slow": 30.0}, {"op": "sleep", "ms": 100},
                                      ({"op": "shutdown", "ctx": "thread", "wait": True} if trig == "shutdown" else {"op": "end", "p": "f", "how": "exc:UserExc"}), {"op": "wait_end", "timeout": 4.0}],
                           "shape": "targeted-blocked-in-execute-" + trig})
+    # a payload raises KeyboardInterrupt while another payload's cancellation adopts one more
+    # asyncio payload: that one is cancelled too, before accept() ends
+    for ff in ("threading", "asyncio", "trio"):
+        extra.append({"seed": ctx.seed, "jitter": 0.0, "payloads": {"f": {"flavour": ff}, "c1": {"flavour": "asyncio", "cleanup": 1, "adopt_in_cleanup": "late"}, "c2": {"flavour": "asyncio", "cleanup": 2}, "late": {"flavour": "asyncio", "cleanup": 1}},
+                      "script": [{"op": "adopt", "p": "f"}, {"op": "adopt", "p": "c1"}, {"op": "adopt", "p": "c2"}, {"op": "accept"}, {"op": "wait_running"}, {"op": "wait_start", "p": "f"}, {"op": "wait_start", "p": "c1"}, {"op": "wait_start", "p": "c2"},
+                                 {"op": "end", "p": "f", "how": "base:KeyboardInterrupt"}, {"op": "wait_end", "timeout": 4.0}, {"op": "sleep", "ms": 200}], "shape": "targeted-interrupt-payload-adopt-in-cleanup"})
+    # the loop outlives the runners (a payload's own job in the default executor is still
+    # running when the runtime closes): what is adopted in that phase is not started unsupervised
+    for trig in ([{"op": "end", "p": "f", "how": "exc:UserExc"}],):
+        for ctxl in ("thread", "payload:h1"):
+            extra.append({"seed": ctx.seed, "jitter": 0.0, "timeout": 14, "payloads": {"f": {"flavour": "threading"}, "h1": {"flavour": "threading"}, "a1": {"flavour": "asyncio", "cleanup": 1, "executor_job": 1.2}, "late": {"flavour": "asyncio", "cleanup": 1}},
+                          "script": [{"op": "adopt", "p": "a1"}, {"op": "adopt", "p": "f"}, {"op": "adopt", "p": "h1"}, {"op": "accept"}, {"op": "wait_running"}, {"op": "wait_start", "p": "a1"}, {"op": "wait_start", "p": "f"}, {"op": "wait_start", "p": "h1"}]
+                          + trig + [{"op": "sleep", "ms": 400}, {"op": "adopt", "p": "late", "ctx": ctxl, "force": True}, {"op": "wait_end", "timeout": 4.0}, {"op": "sleep", "ms": 300}], "shape": "targeted-adopt-while-loop-outlives-runners"})
     # payloads adopted while the runtime is already closing must be cancelled as well
     for trig in ([{"op": "end", "p": "f", "how": "exc:UserExc"}], [{"op": "sigint"}], [{"op": "shutdown", "ctx": "thread", "wait": False}]):
         for late in ("asyncio", "trio"):
